@@ -110,7 +110,8 @@ let () =
            | Ok _ -> "ok"
            | Crash s -> (if site_certain s then "must:" else "may:") ^ implode (site_name s) in
          let pw = match pow_math_env vars ivs root with None -> "none" | Some r -> implode (stod_result_name r) in
-         Printf.printf "val=%s ana=%s pow=%s\n" vs as_ pw
+         let pu = if exponent_unavailable vars ivs root then "1" else "0" in
+         Printf.printf "val=%s ana=%s pow=%s pu=%s\n" vs as_ pw pu
        done
      with End_of_file -> ());
     close_in ic
